@@ -47,7 +47,11 @@ def check(c, item):
             else:
                 m = to_model(sp) if not sp.get('shared_delay_dict') else shared_delay_model(sp)
             try:
+                # the generated model id comes from numpy's global generator: every write of every model of this run gets the SAME id
+                # (anything keyed on that id - a cache of parsed documents, say - must not confuse two models)
+                np.random.seed(20260927)
                 m.write_sbml_model(path, stochastic_model=stochastic)
+                np.random.seed(20260927)
                 m.write_sbml_model(path2, stochastic_model=stochastic)
             except Exception as e:
                 fr = '/freq-' + type(sp['rules'][0]['freq']).__name__ if sp.get('rules') else ''
